@@ -9,36 +9,83 @@ import (
 
 func init() {
 	register(&Rule{Name: "numeric.helpers", Floor: 8,
-		Doc: "the small numeric helpers have the spec's shape: integer_squareroot special-cases UINT64_MAX before forming x+1 and then runs the Newton iteration x=n; y=(x+1)/2; while y<x {x=y; y=(x+n/x)/2}; NextPowerOfTwo smears all six shift widths between the decrement and the increment; IsPowerOfTwo is n>0 && n&(n-1)==0; VerifyMerkleBranch folds exactly `depth` siblings, bit i of the index choosing sibling-left vs sibling-right, and compares with the root; the overflow tests of TimeAtSlot / EpochStartSlot / CheckSlotSpan come before the value they protect is returned",
+		Doc: "the small numeric helpers compute what the spec's do, judged on normal forms and not on spelling: integer_squareroot special-cases UINT64_MAX before forming x+1 and then runs the Newton iteration (start x=n, y=(x+1)/2; while y<x: x, y = y, (y+n/y)/2) — the loop body is read symbolically, so the order and splitting of its assignments do not matter; NextPowerOfTwo returns, read symbolically, the decrement smeared by all six shift widths plus one; IsPowerOfTwo is n>0 && n&(n-1)==0; VerifyMerkleBranch folds exactly `depth` siblings, bit i of the index choosing sibling-left vs sibling-right, and compares with the root; the overflow tests of TimeAtSlot / EpochStartSlot / CheckSlotSpan refuse (error) on the spec's side of the spec's boundary",
 		Run: ruleNumericHelpers})
 }
+
+func safePoly(p Poly) string { return strings.NewReplacer("*", "·", " ", "").Replace(p.String()) }
 
 func ruleNumericHelpers(c *Ctx) {
 	// ---- integer square root
 	{
 		pk, fd := c.P.mustFunc("eth2/util/math", "IntegerSquareroot")
 		info := pk.TypesInfo
-		var param types.Object
+		var param *ast.Ident
 		if len(fd.Type.Params.List) == 1 && len(fd.Type.Params.List[0].Names) == 1 {
-			param = info.Defs[fd.Type.Params.List[0].Names[0]]
+			param = fd.Type.Params.List[0].Names[0]
 		}
-		// (1) guard: first statement is `if n == <MaxUint64> { return <c> }`
+		var loop *ast.ForStmt
+		loopAt := -1
+		for i, st := range fd.Body.List {
+			if f, ok := st.(*ast.ForStmt); ok && loop == nil {
+				loop, loopAt = f, i
+			}
+		}
+		// (1) guard: before anything is added to n, `n == MaxUint64` answers 4294967295
 		guard := false
-		if len(fd.Body.List) > 0 && param != nil {
-			if is, ok := fd.Body.List[0].(*ast.IfStmt); ok {
-				if be, ok := ast.Unparen(is.Cond).(*ast.BinaryExpr); ok && be.Op == token.EQL {
-					x, y := be.X, be.Y
-					if id, ok := ast.Unparen(y).(*ast.Ident); ok && info.ObjectOf(id) == param {
-						x, y = y, x
+		if param != nil {
+			n := polyAtom(param.Name)
+			maxP := polyAtom("const18446744073709551615")
+			wantCut := canonCut(polyAdd(n, maxP, -1), token.EQL)
+			isSqrtMax := func(b *ast.BlockStmt) bool {
+				if b == nil || len(b.List) != 1 {
+					return false
+				}
+				r, ok := b.List[0].(*ast.ReturnStmt)
+				if !ok || len(r.Results) != 1 {
+					return false
+				}
+				rv, ok := info.Types[r.Results[0]]
+				return ok && rv.Value != nil && rv.Value.ExactString() == "4294967295"
+			}
+			for i, st := range fd.Body.List {
+				if loopAt >= 0 && i >= loopAt {
+					break
+				}
+				is, ok := st.(*ast.IfStmt)
+				if !ok {
+					// a statement that already computes with n+1 comes too early
+					early := false
+					ast.Inspect(st, func(k ast.Node) bool {
+						if be, ok := k.(*ast.BinaryExpr); ok && be.Op == token.ADD {
+							early = true
+						}
+						return !early
+					})
+					if early {
+						break
 					}
-					if id, ok := ast.Unparen(x).(*ast.Ident); ok && info.ObjectOf(id) == param {
-						if tv, ok := info.Types[y]; ok && tv.Value != nil && tv.Value.ExactString() == "18446744073709551615" {
-							if len(is.Body.List) == 1 {
-								if r, ok := is.Body.List[0].(*ast.ReturnStmt); ok && len(r.Results) == 1 {
-									if rv, ok := info.Types[r.Results[0]]; ok && rv.Value != nil && rv.Value.ExactString() == "4294967295" {
-										guard = true
-									}
-								}
+					continue
+				}
+				cut, p, op := condCutOf(info, is.Cond, nil)
+				if cut != wantCut {
+					continue
+				}
+				switch cutSide(p, op) {
+				case "eq":
+					guard = isSqrtMax(is.Body)
+				case "ne":
+					// if n != MAX { …the iteration… } ; return 4294967295
+					if i == len(fd.Body.List)-2 {
+						guard = isSqrtMax(&ast.BlockStmt{List: fd.Body.List[i+1:]})
+					}
+					if eb, ok := is.Else.(*ast.BlockStmt); ok {
+						guard = isSqrtMax(eb)
+					}
+					if guard && loop == nil {
+						for j, st2 := range is.Body.List {
+							if f, ok := st2.(*ast.ForStmt); ok && loop == nil {
+								loop, loopAt = f, j
 							}
 						}
 					}
@@ -50,68 +97,157 @@ func ruleNumericHelpers(c *Ctx) {
 		} else {
 			c.bad("IntegerSquareroot.max-guard", fd.Pos(), "IntegerSquareroot forms (x+1)>>1 with x = n without the spec's `if n == UINT64_MAX: return UINT64_MAX_SQRT`: for n = 2^64-1 the sum wraps to 0, the loop sets x = 0 and `n/x` divides by zero (panic) instead of returning 4294967295")
 		}
-		// (2) Newton shape
-		var forms []string
-		var loopCond string
-		ast.Inspect(fd.Body, func(n ast.Node) bool {
-			switch x := n.(type) {
-			case *ast.AssignStmt:
-				if len(x.Lhs) == 1 && len(x.Rhs) == 1 {
-					if p, ok := exprPoly(info, x.Rhs[0], nil, nil, 0); ok {
-						forms = append(forms, types.ExprString(x.Lhs[0])+"="+p.String())
+		// (2) Newton iteration, read symbolically
+		key := "IntegerSquareroot.newton"
+		newton := func() string {
+			if param == nil || loop == nil || loop.Cond == nil || loop.Init != nil || loop.Post != nil {
+				return "no `for <cond> { … }` loop over a single parameter"
+			}
+			parents := parentMap(fd.Body)
+			blk, _ := parents[loop].(*ast.BlockStmt)
+			if blk == nil {
+				return "loop not in a block"
+			}
+			var pre, post []ast.Stmt
+			for i, st := range blk.List {
+				if st == ast.Stmt(loop) {
+					post = blk.List[i+1:]
+					for _, p := range blk.List[:i] {
+						if _, isIf := p.(*ast.IfStmt); !isIf {
+							pre = append(pre, p)
+						}
 					}
 				}
-			case *ast.ForStmt:
-				if x.Cond != nil {
-					loopCond = strings.ReplaceAll(types.ExprString(x.Cond), " ", "")
+			}
+			if len(post) == 0 {
+				return "nothing is returned after the loop"
+			}
+			ret, ok := post[0].(*ast.ReturnStmt)
+			if !ok || len(ret.Results) != 1 {
+				return "the loop is not followed by the return of the root"
+			}
+			xid, ok := ast.Unparen(ret.Results[0]).(*ast.Ident)
+			if !ok {
+				return "the result is not a variable"
+			}
+			x := info.ObjectOf(xid)
+			env0, _, ok := symRun(info, pre, symEnv{})
+			if !ok {
+				return "the statements before the loop are not plain assignments"
+			}
+			// the other variable: assigned in the loop, not x
+			var y types.Object
+			for _, st := range loop.Body.List {
+				if as, ok := st.(*ast.AssignStmt); ok {
+					for _, l := range as.Lhs {
+						if id, ok := ast.Unparen(l).(*ast.Ident); ok && info.ObjectOf(id) != x {
+							if y != nil && y != info.ObjectOf(id) {
+								return "more than two variables change in the loop"
+							}
+							y = info.ObjectOf(id)
+						}
+					}
 				}
 			}
-			return true
-		})
-		want := []string{"x=n", "y=((1 + x)/(2))", "x=y", "y=((((n)/(x)) + x)/(2))"}
-		if strings.Join(forms, ";") == strings.Join(want, ";") && loopCond == "y<x" {
-			c.ok("IntegerSquareroot.newton", fd.Pos(), "x=n; y=(x+1)/2; for y<x { x=y; y=(x+n/x)/2 }")
+			if y == nil {
+				return "the loop updates one variable only"
+			}
+			n := polyAtom(param.Name)
+			half := func(p Poly) Poly { return polyDiv(p, polyConst(2)) }
+			poly := func(e ast.Expr) (Poly, bool) {
+				if e == nil {
+					return nil, false
+				}
+				return exprPoly(info, e, nil, nil, 0)
+			}
+			x0, ok1 := poly(env0[x])
+			y0, ok2 := poly(env0[y])
+			if !ok1 || !ok2 {
+				return "x and y are not both initialised before the loop"
+			}
+			if !polyEq(x0, n) {
+				return "the iteration starts at x = " + x0.String() + ", not at n"
+			}
+			if !polyEq(y0, half(polyAdd(n, polyConst(1), 1))) {
+				return "y starts at " + y0.String() + ", not at (n+1)/2"
+			}
+			env1, _, ok := symRun(info, loop.Body.List, symEnv{})
+			if !ok {
+				return "the loop body is not a sequence of plain assignments"
+			}
+			xa, ya := polyAtom(x.Name()), polyAtom(y.Name())
+			x1, ok1 := poly(env1[x])
+			y1, ok2 := poly(env1[y])
+			if !ok1 || !ok2 {
+				return "the loop does not update both x and y"
+			}
+			if !polyEq(x1, ya) {
+				return "the step sets x to " + x1.String() + ", not to y"
+			}
+			if !polyEq(y1, half(polyAdd(ya, polyDiv(n, ya), 1))) {
+				return "the step sets y to " + y1.String() + ", not to (y + n/y)/2 (with x already y)"
+			}
+			cut, p, op := condCutOf(info, loop.Cond, nil)
+			wp := polyAdd(ya, xa, -1)
+			if cut != canonCut(wp, token.LSS) || cutSide(p, op) != cutSide(wp, token.LSS) {
+				return "the loop runs while `" + types.ExprString(loop.Cond) + "`, not while y < x"
+			}
+			return ""
+		}
+		if why := newton(); why == "" {
+			c.ok(key, fd.Pos(), "x=n; y=(x+1)/2; while y<x { x, y = y, (y+n/y)/2 }")
 		} else {
-			c.bad("IntegerSquareroot.newton", fd.Pos(), "IntegerSquareroot is not the spec's Newton iteration: assignments %v, loop condition %q (want %v under `y<x`)", forms, loopCond, want)
+			c.bad(key, fd.Pos(), "IntegerSquareroot is not the spec's Newton iteration: %s", why)
 		}
 	}
 	// ---- powers of two
 	{
 		pk, fd := c.P.mustFunc("eth2/util/math", "NextPowerOfTwo")
 		info := pk.TypesInfo
-		var seq []string
-		for _, st := range fd.Body.List {
-			switch x := st.(type) {
-			case *ast.IncDecStmt:
-				seq = append(seq, x.Tok.String())
-			case *ast.AssignStmt:
-				if x.Tok == token.OR_ASSIGN && len(x.Rhs) == 1 {
-					if be, ok := ast.Unparen(x.Rhs[0]).(*ast.BinaryExpr); ok && be.Op == token.SHR {
-						if k, ok := constantInt(info.Types[be.Y]); ok {
-							seq = append(seq, "|>>"+itoa(k))
-						}
+		key := "NextPowerOfTwo.smear"
+		var in string
+		if len(fd.Type.Params.List) == 1 && len(fd.Type.Params.List[0].Names) == 1 {
+			in = fd.Type.Params.List[0].Names[0].Name
+		}
+		_, ret, ok := symRun(info, fd.Body.List, symEnv{})
+		var got Poly
+		if ok && ret != nil {
+			got, ok = exprPoly(info, ret, nil, nil, 0)
+		}
+		want := polyAdd(polyAtom(in), polyConst(1), -1)
+		for _, k := range []uint{1, 2, 4, 8, 16, 32} {
+			want = polyBitOp(token.OR, want, polyDiv(want, polyConst(int64(1)<<k)))
+		}
+		want = polyAdd(want, polyConst(1), 1)
+		switch {
+		case !ok || ret == nil || in == "":
+			c.unm(key, fd.Pos(), "NextPowerOfTwo is not straight-line code over one parameter")
+		case polyEq(got, want):
+			c.ok(key, fd.Pos(), "decrement, smear by 1,2,4,8,16,32, increment")
+		default:
+			c.bad(key, fd.Pos(), "NextPowerOfTwo does not return ((in-1) smeared by >>1, >>2, >>4, >>8, >>16, >>32) + 1: rounding a 64-bit value up needs the decrement, all six shifts, then the increment; it returns %s", truncate(got.String(), 400))
+		}
+		pk2, fd2 := c.P.mustFunc("eth2/util/math", "IsPowerOfTwo")
+		info2 := pk2.TypesInfo
+		okPow, txt := false, ""
+		if len(fd2.Body.List) == 1 && len(fd2.Type.Params.List) == 1 && len(fd2.Type.Params.List[0].Names) == 1 {
+			n := polyAtom(fd2.Type.Params.List[0].Names[0].Name)
+			if r, ok := fd2.Body.List[0].(*ast.ReturnStmt); ok && len(r.Results) == 1 {
+				txt = types.ExprString(r.Results[0])
+				parts := flattenBool(r.Results[0], token.LAND)
+				pos, bits := false, false
+				for _, p := range parts {
+					cut, q, op := condCutOf(info2, p, nil)
+					switch {
+					case cut == canonCut(n, token.GTR) && cutSide(q, op) == cutSide(n, token.GTR):
+						pos = true // n > 0
+					case cut == canonCut(n, token.NEQ) && cutSide(q, op) == "ne":
+						pos = true // n != 0
+					case cut == canonCut(polyBitOp(token.AND, n, polyAdd(n, polyConst(1), -1)), token.EQL) && cutSide(q, op) == "eq":
+						bits = true // n & (n-1) == 0
 					}
 				}
-			}
-		}
-		if strings.Join(seq, " ") == "-- |>>1 |>>2 |>>4 |>>8 |>>16 |>>32 ++" {
-			c.ok("NextPowerOfTwo.smear", fd.Pos(), "decrement, smear by 1,2,4,8,16,32, increment")
-		} else {
-			c.bad("NextPowerOfTwo.smear", fd.Pos(), "NextPowerOfTwo does `%s`; rounding a 64-bit value up needs the decrement, all of the shifts 1,2,4,8,16,32, then the increment", strings.Join(seq, " "))
-		}
-		_, fd2 := c.P.mustFunc("eth2/util/math", "IsPowerOfTwo")
-		txt := ""
-		if len(fd2.Body.List) == 1 {
-			if r, ok := fd2.Body.List[0].(*ast.ReturnStmt); ok && len(r.Results) == 1 {
-				txt = strings.NewReplacer(" ", "", "(", "", ")", "").Replace(types.ExprString(r.Results[0]))
-			}
-		}
-		okPow := false
-		for _, a := range []string{"n>0", "n!=0", "0<n", "0!=n"} {
-			for _, b := range []string{"n&n-1==0", "n-1&n==0", "0==n&n-1", "0==n-1&n"} {
-				if txt == a+"&&"+b || txt == b+"&&"+a {
-					okPow = true
-				}
+				okPow = len(parts) == 2 && pos && bits
 			}
 		}
 		if okPow {
@@ -124,85 +260,163 @@ func ruleNumericHelpers(c *Ctx) {
 	{
 		pk, fd := c.P.mustFunc("eth2/util/merkle", "VerifyMerkleBranch")
 		info := pk.TypesInfo
-		names := map[string]string{}
+		var params []types.Object
 		if fd.Type.Params != nil {
-			i := 0
 			for _, f := range fd.Type.Params.List {
 				for _, n := range f.Names {
-					names[[]string{"leaf", "branch", "depth", "index", "root"}[minInt(i, 4)]] = n.Name
-					i++
+					params = append(params, info.Defs[n])
 				}
 			}
 		}
 		var probs []string
-		var loop *ast.ForStmt
-		for _, st := range fd.Body.List {
-			if f, ok := st.(*ast.ForStmt); ok {
-				loop = f
-			}
-		}
-		if loop == nil {
-			probs = append(probs, "no loop over the depth")
+		if len(params) != 5 {
+			probs = append(probs, "expected (leaf, branch, depth, index, root)")
 		} else {
-			norm := func(e ast.Node) string { return strings.ReplaceAll(nodeString(c.P.Fset, e), " ", "") }
-			init, cond, post := norm(loop.Init), norm(loop.Cond), norm(loop.Post)
-			iv := ""
-			if as, ok := loop.Init.(*ast.AssignStmt); ok && len(as.Lhs) == 1 {
-				iv = types.ExprString(as.Lhs[0])
-				if k, ok := constantInt(info.Types[as.Rhs[0]]); !ok || k != 0 {
-					probs = append(probs, "the fold does not start at level 0 ("+init+")")
+			leaf, branch, depth, index, root := params[0], params[1], params[2], params[3], params[4]
+			isObj := func(e ast.Expr, o types.Object) bool {
+				id, ok := ast.Unparen(e).(*ast.Ident)
+				return ok && info.ObjectOf(id) == o
+			}
+			// the result: <acc> == root
+			var acc types.Object
+			if r, ok := fd.Body.List[len(fd.Body.List)-1].(*ast.ReturnStmt); ok && len(r.Results) == 1 {
+				if be, ok := ast.Unparen(r.Results[0]).(*ast.BinaryExpr); ok && be.Op == token.EQL {
+					for _, pr := range [][2]ast.Expr{{be.X, be.Y}, {be.Y, be.X}} {
+						if isObj(pr[1], root) {
+							if id, ok := ast.Unparen(pr[0]).(*ast.Ident); ok {
+								acc = info.ObjectOf(id)
+							}
+						}
+					}
 				}
 			}
-			if cond != iv+"<"+names["depth"] {
-				probs = append(probs, "loop condition `"+cond+"` is not `"+iv+" < "+names["depth"]+"`")
+			if acc == nil {
+				probs = append(probs, "the result is not `<folded value> == root`")
 			}
-			if post != iv+"++" {
-				probs = append(probs, "loop step `"+post+"`")
-			}
-			// if (index>>i)&1 == 1 { value = H(branch[i] ++ value) } else { value = H(value ++ branch[i]) }
-			var is *ast.IfStmt
-			for _, st := range loop.Body.List {
-				if x, ok := st.(*ast.IfStmt); ok {
-					is = x
+			var loop *ast.ForStmt
+			startsAtLeaf := false
+			for _, st := range fd.Body.List {
+				if f, ok := st.(*ast.ForStmt); ok {
+					loop = f
+				}
+				if as, ok := st.(*ast.AssignStmt); ok && loop == nil && len(as.Lhs) == 1 && len(as.Rhs) == 1 {
+					if acc != nil && isObj(as.Lhs[0], acc) && isObj(as.Rhs[0], leaf) {
+						startsAtLeaf = true
+					}
 				}
 			}
-			if is == nil || is.Else == nil {
-				probs = append(probs, "no left/right selection")
-			} else {
-				condS := strings.NewReplacer(" ", "", "(", "", ")", "").Replace(types.ExprString(is.Cond))
-				order := func(b ast.Stmt) string {
-					blk, _ := b.(*ast.BlockStmt)
-					if blk == nil || len(blk.List) != 1 {
-						return "?"
+			if acc != nil && !startsAtLeaf {
+				probs = append(probs, "the fold does not start from the leaf")
+			}
+			if loop == nil {
+				probs = append(probs, "no loop over the depth")
+			} else if acc != nil {
+				parents := parentMap(fd.Body)
+				be, _ := loop.Cond.(*ast.BinaryExpr)
+				var iv types.Object
+				if be == nil || !countingLoop(info, parents, be) {
+					probs = append(probs, "the loop is not `for i := 0; i < depth; i++`")
+				} else {
+					iv = info.ObjectOf(ast.Unparen(be.X).(*ast.Ident))
+					if !isObj(be.Y, depth) {
+						probs = append(probs, "the loop runs to `"+types.ExprString(be.Y)+"`, not to depth")
 					}
-					s := norm(blk.List[0])
-					bi := strings.Index(s, names["branch"]+"["+iv+"]")
-					app := strings.Index(s, "append(")
-					if bi < 0 || app < 0 {
-						return "?"
-					}
-					vi := strings.Index(s[app:], "value[:]")
-					if vi < 0 {
-						return "?"
-					}
-					if bi < app+vi {
-						return "sibling,value"
-					}
-					return "value,sibling"
 				}
-				a, b := order(is.Body), order(is.Else)
-				bitOne := condS == names["index"]+">>"+iv+"&1==1" || condS == names["index"]+">>"+iv+"&1!=0"
-				bitZero := condS == names["index"]+">>"+iv+"&1==0"
-				switch {
-				case bitOne && a == "sibling,value" && b == "value,sibling", bitZero && a == "value,sibling" && b == "sibling,value":
-				default:
-					probs = append(probs, "bit "+iv+" of the index must put the sibling on the left when set and on the right when clear; found `"+condS+"` -> ("+a+") else ("+b+")")
+				var is *ast.IfStmt
+				for _, st := range loop.Body.List {
+					if x, ok := st.(*ast.IfStmt); ok {
+						is = x
+					}
+				}
+				if is == nil || is.Else == nil || iv == nil {
+					if iv != nil {
+						probs = append(probs, "no left/right selection")
+					}
+				} else {
+					// the condition as a function of bit i of the index
+					bitAtom := polyBitOp(token.AND, polyConst(1), polyAtom("shr("+index.Name()+","+iv.Name()+")"))
+					_, p, op := condCutOf(info, is.Cond, nil)
+					holds := func(bit int64) (bool, bool) {
+						if p == nil || len(p) > 2 {
+							return false, false
+						}
+						coef, has := int64(0), false
+						for a, cf := range p {
+							if a == "" {
+								continue
+							}
+							if a != bitAtom.String() {
+								return false, false
+							}
+							coef, has = cf, true
+						}
+						if !has {
+							return false, false
+						}
+						v := coef*bit + p[""]
+						switch op {
+						case token.EQL:
+							return v == 0, true
+						case token.NEQ:
+							return v != 0, true
+						case token.LSS:
+							return v < 0, true
+						case token.LEQ:
+							return v <= 0, true
+						case token.GTR:
+							return v > 0, true
+						case token.GEQ:
+							return v >= 0, true
+						}
+						return false, false
+					}
+					h1, ok1 := holds(1)
+					h0, ok0 := holds(0)
+					order := func(b ast.Stmt) string {
+						blk, _ := b.(*ast.BlockStmt)
+						if blk == nil || len(blk.List) != 1 {
+							return "?"
+						}
+						as, ok := blk.List[0].(*ast.AssignStmt)
+						if !ok || len(as.Lhs) != 1 || len(as.Rhs) != 1 || !isObj(as.Lhs[0], acc) {
+							return "?"
+						}
+						var app *ast.CallExpr
+						ast.Inspect(as.Rhs[0], func(k ast.Node) bool {
+							if cl, ok := k.(*ast.CallExpr); ok {
+								if id, ok := cl.Fun.(*ast.Ident); ok && id.Name == "append" && len(cl.Args) == 2 {
+									app = cl
+								}
+							}
+							return true
+						})
+						if app == nil {
+							return "?"
+						}
+						kind := func(e ast.Expr) string {
+							if se, ok := ast.Unparen(e).(*ast.SliceExpr); ok {
+								e = se.X
+							}
+							if isObj(e, acc) {
+								return "value"
+							}
+							if ix, ok := ast.Unparen(e).(*ast.IndexExpr); ok && isObj(ix.X, branch) && isObj(ix.Index, iv) {
+								return "sibling"
+							}
+							return "?"
+						}
+						return kind(app.Args[0]) + "," + kind(app.Args[1])
+					}
+					a, b := order(is.Body), order(is.Else)
+					switch {
+					case !ok1 || !ok0 || h1 == h0:
+						probs = append(probs, "the side is not chosen by bit "+iv.Name()+" of the index (`"+types.ExprString(is.Cond)+"`)")
+					case h1 && a == "sibling,value" && b == "value,sibling", h0 && a == "value,sibling" && b == "sibling,value":
+					default:
+						probs = append(probs, "bit "+iv.Name()+" of the index must put the sibling on the left when set and on the right when clear; found `"+types.ExprString(is.Cond)+"` -> ("+a+") else ("+b+")")
+					}
 				}
 			}
-		}
-		last := fd.Body.List[len(fd.Body.List)-1]
-		if r, ok := last.(*ast.ReturnStmt); !ok || len(r.Results) != 1 || strings.ReplaceAll(types.ExprString(r.Results[0]), " ", "") != "value=="+names["root"] {
-			probs = append(probs, "the result is not `value == root`")
 		}
 		if len(probs) == 0 {
 			c.ok("VerifyMerkleBranch.fold", fd.Pos(), "folds levels 0..depth-1, index bit selects the side, compares with the root")
@@ -210,34 +424,44 @@ func ruleNumericHelpers(c *Ctx) {
 			c.bad("VerifyMerkleBranch.fold", fd.Pos(), "VerifyMerkleBranch: %s", strings.Join(probs, "; "))
 		}
 	}
-	// ---- overflow tests precede the protected value
-	for _, w := range []struct{ pkg, fn, guard, norm, what string }{
-		{"eth2/beacon/common", "Spec.TimeAtSlot", "slot >= max", "<= max + -1*slot", "slot*SECONDS_PER_SLOT + genesis_time"},
-		{"eth2/beacon/common", "Spec.EpochStartSlot", "e != SlotToEpoch(out)", "!= SlotToEpoch(out) + -1*e", "epoch*SLOTS_PER_EPOCH"},
-		{"eth2/gossipval", "CheckSlotSpan", "slot+span < slot", "< span", "slot+span"},
+	// ---- overflow tests: the helper refuses (error) on the spec's side of the boundary
+	for _, w := range []struct {
+		pkg, fn, guard string
+		p              Poly
+		rop            token.Token
+		what           string
+	}{
+		{"eth2/beacon/common", "Spec.TimeAtSlot", "slot >= max", polyAdd(polyAtom("slot"), polyAtom("max"), -1), token.GEQ, "slot*SECONDS_PER_SLOT + genesis_time"},
+		{"eth2/beacon/common", "Spec.EpochStartSlot", "e != SlotToEpoch(out)", polyAdd(polyAtom("e"), polyAtom("SlotToEpoch(out)"), -1), token.NEQ, "epoch*SLOTS_PER_EPOCH"},
+		{"eth2/gossipval", "CheckSlotSpan", "slot+span < slot", polyAtom("span"), token.LSS, "slot+span"},
 	} {
-		_, fd := c.P.mustFunc(w.pkg, w.fn)
+		pkg, fd := c.P.mustFunc(w.pkg, w.fn)
 		key := strings.TrimPrefix(w.fn, "Spec.") + ".overflow-guard"
-		var guardIf *ast.IfStmt
-		pkg, _ := c.P.mustFunc(w.pkg, w.fn)
-		for _, st := range fd.Body.List {
-			if is, ok := st.(*ast.IfStmt); ok && guardIf == nil {
-				if be, ok := ast.Unparen(is.Cond).(*ast.BinaryExpr); ok {
-					l, ok1 := exprPoly(pkg.TypesInfo, be.X, nil, nil, 0)
-					r, ok2 := exprPoly(pkg.TypesInfo, be.Y, nil, nil, 0)
-					if ok1 && ok2 && orient(polyAdd(l, r, -1), be.Op) == w.norm {
-						guardIf = is
-					}
+		wantCut, wantSide := canonCut(w.p, w.rop), cutSide(w.p, w.rop)
+		var found *cmpSite
+		refuses := false
+		sites := cmpsIn(pkg, fd, w.fn, nil, nil, nil, nil)
+		for i := range sites {
+			s := &sites[i]
+			for _, q := range []Poly{s.p, s.pr} {
+				if canonCut(q, s.op) != wantCut {
+					continue
+				}
+				if found == nil {
+					found = s
+				}
+				if s.rop != 0 && cutSide(q, s.rop) == wantSide {
+					found, refuses = s, true
 				}
 			}
 		}
 		switch {
-		case guardIf == nil:
+		case found == nil:
 			c.bad(key, fd.Pos(), "%s no longer tests `%s` before using %s: the helper has an error result and must use it instead of returning a wrapped value", w.fn, w.guard, w.what)
-		case !blockReturnsError(guardIf.Body):
-			c.bad(key, guardIf.Pos(), "%s tests `%s` but the branch does not return an error", w.fn, w.guard)
+		case !refuses:
+			c.bad(key, found.pos, "%s tests `%s` but does not return an error on that side", w.fn, w.guard)
 		default:
-			c.ok(key, guardIf.Pos(), "`%s` returns an error before %s is handed out", w.guard, w.what)
+			c.ok(key, found.pos, "`%s` returns an error before %s is handed out", w.guard, w.what)
 		}
 	}
 }
@@ -256,14 +480,12 @@ func blockReturnsError(b *ast.BlockStmt) bool {
 }
 
 func itoa(k int64) string {
-	return strings.TrimSpace(strings.Replace(types.ExprString(&ast.BasicLit{Kind: token.INT, Value: func() string {
-		if k == 0 {
-			return "0"
-		}
-		s := ""
-		for n := k; n > 0; n /= 10 {
-			s = string(rune('0'+n%10)) + s
-		}
-		return s
-	}()}), " ", "", -1))
+	if k == 0 {
+		return "0"
+	}
+	s := ""
+	for n := k; n > 0; n /= 10 {
+		s = string(rune('0'+n%10)) + s
+	}
+	return s
 }
